@@ -759,6 +759,8 @@ def _only_annotation(vd):
         return True
     if vd.get("diffs"):
         return all(d.startswith("description ") for d in vd["diffs"])
+    if vd.get("exc") == "UnicodeDecodeError":  # the cut went through a multi-byte character of the annotations file
+        return True
     return vd.get("exc") == "KeyError" and "No annotation for" in vd["msg"]
 
 
@@ -769,7 +771,7 @@ def classify(vd, point):
     if point is not None:
         torn_rel = point.get("torn_rel")
         if point["flavour"] == "torn" and torn_rel == "ctx/annotations" and what in ("annot", "name", "poststore") and (
-                not vd.get("store_failed") and _only_annotation(vd)):
+                _only_annotation(vd) and (not vd.get("store_failed") or vd.get("exc") == "UnicodeDecodeError")):
             # the annotations file is rewritten in place: a death inside that write loses the earlier lines, shows a
             # partial line as an annotation, and a line without terminator swallows the next annotation appended
             return KEY_ANNOT_ATOMIC, None
@@ -932,8 +934,12 @@ def crash_case(rng, idx, base):
             res2, st2 = judge_in_child(root2, spec, entries, models, committed, inflight, post=True, fix=fix, skip_post=unstorable)
             shutil.rmtree(root2, ignore_errors=True)
             c.hit("delta_checks")
+            # the violation is gone if nothing of the same kind AND cause (exception type) remains; what may appear
+            # instead behind a removed marker (e.g. a results.json cut by the same interrupted re-store) is a state no
+            # reader can observe and is not reported
             gone = res2 is not None and "viol" in res2 and not any(
-                x["what"] == vd["what"] and x.get("model") == vd.get("model") and x["cls"] == vd["cls"] for x in res2["viol"])
+                x["what"] == vd["what"] and x.get("model") == vd.get("model") and x["cls"] == vd["cls"]
+                and x.get("exc") == vd.get("exc") for x in res2["viol"])
             detail = dict(point=point, violation=vd, delta=fix, delta_removed_violation=gone)
             c.violate(key if gone else None, f"({vd['cls']}) {vd['msg']} [{point['flavour']} before {point['before_event']}, "
                       f"in-flight {point['inflight_op']}; delta '{fix}' {'removes' if gone else 'does not remove'} it]", detail)
